@@ -10,7 +10,7 @@ use lc3_ensemble::sim::{InternalRegister, SimFlags, Simulator};
 pub fn prop() -> Prop {
     Prop {
         id: "C16", title: "No machine state makes the simulator panic", level: "fault_enumeration",
-        rule: "Machines: full 64K memory images (uniform random, encoding-biased, pointer-biased, or the OS image with random patches), random registers with initialized/uninitialized mix, all 16 combinations of {strict, real traps, debug frames, ignore privilege} x 3 \
+        rule: "Machines: (in half of the cases after loading a small object file at a boundary origin, so that strict mode's table of allocated blocks is the file's) full 64K memory images (uniform random, encoding-biased, pointer-biased, or the OS image with random patches), random registers with initialized/uninitialized mix, all 16 combinations of {strict, real traps, debug frames, ignore privilege} x 3 \
                initialization strategies, PC from {x0000, xFDFF, xFE00, xFFFF, every page boundary, random}, PSR privilege/priority, saved SP; keyboard (with queue, optional interrupt enable), display, an enabled seeded timer, a scripted interrupt device, \
                and PC/PSR/MCR/SavedSP mapped at random I/O ports. Each machine executes up to 200 step_in, then run-style calls (run_while with an instruction limit like run_with_limit, step_over- and step_out-style frame conditions, all additionally bounded by a boundary counter because a corrupted OS can loop through exception entries without ever completing an instruction), and finally prefetch_pc(), frames(), psr(), hit_halt(), hit_breakpoint() and a reset. \
                Everything runs inside catch_unwind in sharded processes; a panic or a shard killed by a signal is a violation; every failure must surface as Err(SimErr). verif and release profiles. Non-trivial = machine that executed at least one step; distinct = machine seed.",
@@ -28,7 +28,19 @@ fn build(rng: &mut Rng, flagbits: u64) -> (Simulator, Json) {
     let init = match rng.below(3) { 0 => MachineInitStrategy::Unseeded, 1 => MachineInitStrategy::Seeded { seed: rng.next() }, _ => MachineInitStrategy::Known { value: rng.u16() } };
     let flags = SimFlags { strict: flagbits & 1 != 0, use_real_traps: flagbits & 2 != 0, debug_frames: flagbits & 4 != 0, ignore_privilege: flagbits & 8 != 0, machine_init: init };
     let mut sim = Simulator::new(flags);
-    let image = rng.below(4);
+    // in half of the machines an object file is loaded first: the table of allocated blocks used by strict mode then
+    // holds only that file's blocks (lowest block usually above x0000)
+    let mut loaded = String::new();
+    if rng.bool() {
+        let origin = *rng.pick(&[0x3000u16, 0x3000, 0x4000, 0x0200, 0x8000, 0xFD00, 0x0000]);
+        let n = 1 + rng.below(6);
+        let mut src = format!(".orig x{origin:04X}\n");
+        for _ in 0..n { match rng.below(4) { 0 => src.push_str(&format!(".blkw {}\n", 1 + rng.below(5))), 1 => src.push_str(".stringz \"ab\"\n"), _ => src.push_str(&format!(".fill x{:04X}\n", biased_word(rng))) } }
+        src.push_str(".end\n");
+        if rng.chance(1, 3) { src.push_str(&format!(".orig x{:04X}\n.fill x{:04X}\n.blkw 2\n.end\n", origin.wrapping_add(0x100), biased_word(rng))); }
+        if let Ok(ast) = lc3_ensemble::parse::parse_ast(&src) { if let Ok(obj) = lc3_ensemble::asm::assemble(ast) { let _ = sim.load_obj_file(&obj); loaded = src; } }
+    }
+    let image = if loaded.is_empty() { rng.below(4) } else { 3 };
     match image {
         0 => for a in 0..=0xFFFFu16 { let v = rng.u16(); if rng.chance(7, 8) { sim.mem[a] = Word::new_init(v); } else { let mut x = v; sim.mem[a] = Word::new_uninit(&mut x); } },
         1 => for a in 0..=0xFFFFu16 { sim.mem[a] = Word::new_init(biased_word(rng)); },
@@ -36,7 +48,8 @@ fn build(rng: &mut Rng, flagbits: u64) -> (Simulator, Json) {
         _ => for _ in 0..rng.usize(400) { let a = rng.u16(); sim.mem[a] = Word::new_init(biased_word(rng)); },
     }
     for i in 0..8 { let v = if rng.bool() { boundary_addr(rng) } else { rng.u16() }; if rng.chance(5, 6) { sim.reg_file[reg(i)].set(v); } else { let mut x = v; sim.reg_file[reg(i)] = Word::new_uninit(&mut x); } }
-    let pc = match rng.below(8) { 0 => 0x0000, 1 => 0xFDFF, 2 => 0xFE00, 3 => 0xFFFF, 4 => (rng.below(256) as u16) << 8, 5 => ((rng.below(256) as u16) << 8).wrapping_sub(1), _ => rng.u16() };
+    let pc = if !loaded.is_empty() && rng.chance(2, 3) { let o = u16::from_str_radix(&loaded[7..11], 16).unwrap_or(0x3000); for k in 0..12 { let a = o.wrapping_add(k); if rng.chance(2, 3) { sim.mem[a] = Word::new_init(biased_word(rng)); } } o } else { 0xFFFF };
+    let pc = if pc != 0xFFFF || (!loaded.is_empty() && rng.chance(2, 3)) { pc } else { match rng.below(8) { 0 => 0x0000, 1 => 0xFDFF, 2 => 0xFE00, 3 => 0xFFFF, 4 => (rng.below(256) as u16) << 8, 5 => ((rng.below(256) as u16) << 8).wrapping_sub(1), _ => rng.u16() } };
     sim.pc = pc;
     let psr = ((rng.bool() as u16) << 15) | ((rng.below(8) as u16) << 8) | (1 << rng.below(3));
     let _ = sim.write_mem(0xFFFC, Word::new_init(psr), priv_ctx());
@@ -51,7 +64,7 @@ fn build(rng: &mut Rng, flagbits: u64) -> (Simulator, Json) {
     if rng.chance(1, 2) { let lo = rng.below(5) as u32; let mut t = TimerDevice::new(Some(rng.next()), lo..=lo + rng.below(6) as u32, rng.next() as u8, rng.below(10) as u8); t.enabled = true; let ports: Vec<u16> = if rng.bool() { vec![0xFE20] } else { vec![] }; let _ = sim.device_handler.add_device(t, &ports); }
     if rng.chance(1, 2) { let mut r2 = Rng::new(rng.next()); let _ = sim.device_handler.add_device(InterruptFromFn::new(move || if r2.chance(1, 6) { Some(Interrupt::vectored(r2.next() as u8, r2.below(9) as u8)) } else { None }), &[]); }
     if rng.chance(1, 6) { for _ in 0..3 { let a = rng.u16(); sim.breakpoints.insert(lc3_ensemble::sim::debug::Breakpoint::PC(a)); } }
-    let d = Json::obj().set("flags", format!("{flags:?}")).set("image", image).set("pc", format!("x{pc:04X}")).set("psr", format!("x{psr:04X}")).set("mapped", format!("{ports:?}"));
+    let d = Json::obj().set("flags", format!("{flags:?}")).set("image", image).set("pc", format!("x{pc:04X}")).set("psr", format!("x{psr:04X}")).set("mapped", format!("{ports:?}")).set("loaded_object", loaded.as_str());
     (sim, d)
 }
 
